@@ -90,7 +90,25 @@ async def run_frame_case(case):
         raise RuntimeError('record never arrived')
     await ft
     left = await reader.read()
-    return {'wire': list(wire), 'rid': rid, 'data': list(data), 'left': len(left), 'left_ok': left == bytes(case['rest'])}
+    # the same record cut short: the first k bytes, then the peer closes. Nothing may be delivered.
+    k = rng.choice([0, 1, max(0, hdr_end - 2), hdr_end - 1, hdr_end, min(len(wire) - 1, hdr_end + 1), len(wire) - 1,
+                    rng.randrange(len(wire)), rng.randrange(len(wire))])
+    k = max(0, min(k, len(wire) - 1))
+    r2 = asyncio.StreamReader()
+    cut = list(range(0, k, max(1, case['chunks']))) + [k]
+    for a, b in zip(cut, cut[1:]):
+        r2.feed_data(wire[a:b])
+        await asyncio.sleep(0)
+    r2.feed_eof()
+    try:
+        got = await msock.read_record(r2, timeout=1)
+        cutres, cutwhat = 1, repr(got)[:100]
+    except asyncio.IncompleteReadError:
+        cutres, cutwhat = 0, 'IncompleteReadError'
+    except BaseException as e:  # noqa
+        cutres, cutwhat = 2, repr(e)[:100]
+    return {'wire': list(wire), 'rid': rid, 'data': list(data), 'left': len(left), 'left_ok': left == bytes(case['rest']),
+            'cut': k, 'cutres': cutres, 'cutwhat': cutwhat}
 
 
 async def run_pickle_case(rng):
@@ -296,6 +314,9 @@ def oracle(case, obs):
         return 'payload changed on the way'
     if not obs['left_ok']:
         return 'bytes following the record were consumed or altered'
+    if obs.get('cutres', 0) != 0:
+        return (f"a record cut after {obs['cut']} of {len(obs['wire'])} bytes (then end of stream) was not refused with "
+                f"IncompleteReadError: {obs['cutwhat']}")
     return None
 
 
@@ -356,7 +377,7 @@ def coq_case(r):
     b = lambda l: clist(l, cnat)  # noqa
     rid = list(c['id'].encode())
     return (f"({b(rid)}, {b(list(b'none'))}, {b(c['payload'])}, {b(c['rest'])}, {b(o['wire'])}, "
-            f"({b(list(o['rid'].encode()))}, {b(o['data'])}, {cnat(o['left'])}))")
+            f"({b(list(o['rid'].encode()))}, {b(o['data'])}, {cnat(o['left'])}), ({cnat(o.get('cut', 0))}, {cnat(o.get('cutres', 0))}))")
 
 
 TRUSTED = [
@@ -407,7 +428,7 @@ def check(tier, seed, replay=None):
         PROP, tier, seed, [part], TRUSTED, ASSUME,
         rule='framing: random request ids, payloads (random bytes, newline-heavy, header-like text, empty, utf8, 1-3 kB) and '
              'following bytes; the real write_record output is compared byte for byte with the model, and the real read_record (through '
-             'an asyncio.StreamReader fed in random chunks) with the model\'s decode, inside Coq for payloads <= 400 bytes; plus pickle/utf8 '
+             'an asyncio.StreamReader fed in random chunks) with the model\'s decode, inside Coq for payloads <= 400 bytes; every record is also cut short at a random position (header boundaries favoured) and followed by end-of-stream: the real read_record must raise IncompleteReadError exactly where the model returns nothing; plus pickle/utf8 '
              'end-to-end, 2 (quick) / 8 (thorough) loopback client+server runs over a unix socket with 1-3 connections, 24 concurrent '
              'requests with reordering latencies, failing handlers, 70 kB payloads and stream(), and one named-pipe exchange. '
              'non-trivial = payload contains a newline or is empty, or bytes follow the record; distinct = distinct case',
